@@ -45,7 +45,7 @@ class Ctl(object):
     # -- submissions ---------------------------------------------------------
     def submit(self, kind, name=None):
         """kind: 'P' plain queue_command, 'K' queue_command with per-line callback,
-        'I' get_info_incremental"""
+        'I' get_info_incremental, 'B' plain queue_command given non-ASCII bytes"""
         idx = len(self.subs)
         name = name or ('C%d' % idx)
         if kind == 'I':
@@ -66,6 +66,9 @@ class Ctl(object):
         try:
             if kind == 'P':
                 d = self.proto.queue_command(line)
+            elif kind == 'B':
+                # a command given as bytes, with a value that is not ASCII (a str command is ASCII-encoded by the library)
+                d = self.proto.queue_command(line.encode('ascii') + b' Contact="caf\xc3\xa9"')
             elif kind == 'K':
                 d = self.proto.queue_command(line, line_cb)
             elif kind == 'I':
